@@ -81,3 +81,39 @@ Theorem C12_standard_denotes : forall T W O, table_ok T = true -> agree_b T W = 
   parse_std_opts (cfg_of T true) O [] d = (OK s, decls s).
 Proof. exact std_denotes_lang. Qed.
 Print Assumptions C12_standard_denotes.
+
+(* Standard notation, writer then parser.  For every sentence of the parsers' language that is
+   "plain" (no negated identity, which the writer renders with a symbol the parser does not have,
+   and no Existence predication, whose written symbol differs from the parser's), the model of
+   StandardLexWriter (default options) renders it and the standard parser maps the rendering back
+   to the same sentence; e is the parser's character for Existence, which plain sentences never
+   consult (patch_exist replaces only that entry).  Hence, within standard notation over such a
+   table, distinct plain sentences never render to the same string. *)
+From PT Require Import Lang.WriteStd Lang.StdRoundTrip.
+Theorem C12_standard_roundtrip_plain : forall T S O e, table_ok T = true ->
+  std_agree_b T (patch_exist S e) O = true ->
+  forall s, roundtrippable s = true -> std_plain s = true ->
+  exists w, write_std S s = Some w /\
+            parse_std_opts (cfg_of T false) O (decls s) w = (OK s, decls s) /\
+            parse_std_opts (cfg_of T true) O [] w = (OK s, decls s).
+Proof. exact std_roundtrip_plain. Qed.
+Print Assumptions C12_standard_roundtrip_plain.
+
+Theorem C12_write_standard_injective_plain : forall T S O e, table_ok T = true ->
+  std_agree_b T (patch_exist S e) O = true ->
+  forall s1 s2 w, roundtrippable s1 = true -> std_plain s1 = true ->
+  roundtrippable s2 = true -> std_plain s2 = true ->
+  write_std S s1 = Some w -> write_std S s2 = Some w -> s1 = s2.
+Proof. exact write_std_injective_plain. Qed.
+Print Assumptions C12_write_standard_injective_plain.
+
+(* non-vacuity: the example sentence above is plain *)
+Example C12_std_plain_example :
+  std_plain
+    (Bin Conjunction
+       (Quant Existential (0, 12%N)
+          (Un Negation (Pred (PUser 0 3%N 2) [Var 0 12%N; Const 1 0%N])))
+       (Bin Biconditional (Pred (PSys Identity) [Const 0 0%N; Const 3 7%N])
+                          (Quant Universal (0, 12%N) (Pred (PUser 0 3%N 2) [Var 0 12%N; Var 0 12%N]))))
+  = true.
+Proof. vm_compute. reflexivity. Qed.
